@@ -67,6 +67,8 @@ class System:
         for how in ('str', 'obj'):
             ops += [('append', how, g) for g in POOL]
         ops += [('extend', 'str', '{a}', '[b]'), ('extend', 'obj', '{c}', '{a}'), ('extend', 'str')]
+        if 0 < n <= 3:
+            ops += [('extend_self',)]
         for i in range(-n - 2, n + 3):
             ops += [('insert', i, 'str', '[b]'), ('insert', i, 'obj', '{a}')]
         ops += [('insert', 0, 'str', '{c}'), ('insert', n, 'obj', '{c}')]
@@ -93,6 +95,9 @@ class System:
                 return ('none',)
             if k == 'extend':
                 m.extend(op[2:])
+                return ('none',)
+            if k == 'extend_self':
+                m.extend(m)
                 return ('none',)
             if k == 'insert':
                 m.insert(op[1], op[3])
@@ -136,6 +141,18 @@ class System:
                 r = a.append(self.group(op[1], op[2]))
             elif k == 'extend':
                 r = a.extend([self.group(op[1], g) for g in op[2:]])
+            elif k == 'extend_self':
+                import signal
+
+                def on_alarm(signum, frame):
+                    raise TimeoutError('extend(self) did not return within 5 s')
+                old = signal.signal(signal.SIGALRM, on_alarm)
+                signal.setitimer(signal.ITIMER_REAL, 5)
+                try:
+                    r = a.extend(a)
+                finally:
+                    signal.setitimer(signal.ITIMER_REAL, 0)
+                    signal.signal(signal.SIGALRM, old)
             elif k == 'insert':
                 r = a.insert(op[1], self.group(op[2], op[3]))
             elif k == 'remove':
